@@ -63,8 +63,10 @@ RULE = (
     "fixed bytes in utf-8, ascii, cp1252, utf-16 with one byte inserted / replaced (FF 81 C3) or the file cut at "
     "every offset, read by path under the CID declaring that encoding. (5) containers: the generated ods and xlsx "
     "and every .xls / .xlsx / .ods under tests/data cut at every offset (stride 1 below 2 kB, else 64), with every "
-    "single bit of the zip directory (last 128 bytes) / of the .xls header (first 80 bytes) flipped, and with single "
-    "bit flips anywhere (Hypothesis), read by path. Oracle: only InterfaceError may escape Cid.read, only DataError (and "
+    "single bit of the zip directory (last 128 bytes) / of the .xls header (first 80 bytes) flipped, with single "
+    "bit flips anywhere (Hypothesis), the generated ods also with every foreign ODF attribute x 10 values on the "
+    "first, second and sixth table / row / cell / paragraph and with a paragraph's text wrapped in 1 / 40 / 3000 "
+    "nested text:span or a row in as many nested table:table-row-group, read by path. Oracle: only InterfaceError may escape Cid.read, only DataError (and "
     "subclasses) the data stages, main never returns 4. A case is non-trivial when a cutplace error was reached or "
     "the CID loaded with a changed parse; distinct by its JSON."
 )
@@ -988,6 +990,47 @@ def _ods_with_attribute(data, element, occurrence, attribute, value):
     return out.getvalue() if changed else None
 
 
+# elements that ODF lets nest in themselves: text:span inside a paragraph, table:table-row-group around rows
+ODS_NESTINGS = (("text:p", "text:span"), ("table:table-row", "table:table-row-group"))
+ODS_NESTING_DEPTHS = (1, 40, 3000)
+
+
+def _ods_with_nesting(data, element, occurrence, wrapper, depth):
+    """The ODS archive ``data`` with the content of the ``occurrence``-th text:p wrapped ``depth`` times in
+    text:span, or the ``occurrence``-th table:table-row wrapped ``depth`` times in table:table-row-group."""
+    import zipfile
+
+    if wrapper not in ("text:span", "table:table-row-group") or not 0 <= depth <= 5000:
+        raise HarnessError("malformed nesting %r x %r" % (wrapper, depth))
+    with zipfile.ZipFile(io.BytesIO(data)) as archive:
+        members = [(info, archive.read(info.filename)) for info in archive.infolist()]
+    out = io.BytesIO()
+    changed = False
+    with zipfile.ZipFile(out, "w") as archive:
+        for info, content in members:
+            if info.filename == "content.xml":
+                text = content.decode("utf-8")
+                found = list(re.finditer("<%s(?: [^>]*[^/])?>(.*?)</%s>" % (re.escape(element), re.escape(element)),
+                                         text, re.DOTALL))
+                if occurrence < len(found):
+                    match = found[occurrence]
+                    start, end = (match.start(1), match.end(1)) if element == "text:p" else (match.start(), match.end())
+                    text = (text[:start] + ("<%s>" % wrapper) * depth + text[start:end] + ("</%s>" % wrapper) * depth +
+                            text[end:])
+                    changed = True
+                content = text.encode("utf-8")
+            archive.writestr(info, content)
+    return out.getvalue() if changed else None
+
+
+def nesting_cases():
+    for element, wrapper in ODS_NESTINGS:
+        for occurrence in (0, 1, 5):
+            for depth in ODS_NESTING_DEPTHS:
+                yield {"kind": "container", "source": "gen:ods", "fault": "nesting", "element": element,
+                       "offset": occurrence, "attr": wrapper, "value": depth, "bit": 0}
+
+
 def attribute_cases():
     for element in ODS_ELEMENTS:
         for occurrence in (0, 1, 5):
@@ -1012,6 +1055,10 @@ def check_container_case(sub, case):
         data = data[:offset] + bytes([data[offset] ^ (1 << (case["bit"] % 8))]) + data[offset + 1:]
     elif fault == "attribute":
         data = _ods_with_attribute(data, case["element"], offset, case["attr"], case["value"])
+        if data is None:
+            return
+    elif fault == "nesting":
+        data = _ods_with_nesting(data, case["element"], offset, case["attr"], case["value"])
         if data is None:
             return
     else:
@@ -1042,7 +1089,7 @@ def check_container_case(sub, case):
         classes.append("timeout|container")
     classes.extend(_outcome_classes(part, obs))
     _report(sub, obs, case, "container:" + kind, "%s, %s at offset %d%s" % (
-        source, fault, offset, "" if fault != "attribute" else " (%s %s=%r)" % (case["element"], case["attr"], case["value"])))
+        source, fault, offset, "" if fault not in ("attribute", "nesting") else " (%s %s=%r)" % (case["element"], case["attr"], case["value"])))
     sample = None
     if _take_sample():
         sample = {"case": case, "outcomes": sorted(set(obs.outcomes))}
@@ -1257,7 +1304,7 @@ def run(ctx):
             sizes[source] = len(scratch.container_bytes(source))
         cases = (list(single_cell_cases()) + list(cleared_example_cases()) + list(data_cell_cases())
                  + list(bytes_cases()) + list(truncation_cases(sizes)) + list(directory_bitflip_cases(sizes))
-                 + list(attribute_cases()))
+                 + list(attribute_cases()) + list(nesting_cases()))
         shards = max(1, ctx.workers * 4)
 
         def shard(index):
